@@ -443,3 +443,108 @@ func H_C02_invalid() {
 	_ = e // an ill-typed access fails with its own type error before the path check
 	vreach("invalid")
 }
+
+// H_C02_valid: sub-expressions evaluated as values inside a path expression (binding
+// sources, destructuring patterns, conditions, arguments) do not navigate: for a context
+// C that binds or tests something and passes its input on, `path(C | A)`, `(C | A) = 5`,
+// `(C | A) |= 6` and `del(C | A)` behave exactly like the same form over A alone.
+func H_C02_valid() {
+	ctxs := []string{
+		`.a as $x`, `.a as [$x]`, `.a as {b: $y}`, `.a as {$b}`, `.a as [$p, $q] ?// $p`, `(.a | length?) as $n`, `.c as [$x, [$y]]`, `. as {a: $v, c: [$w]}`, `.a as [$x] ?// {b: $x} ?// $x`,
+		`if .a then . else . end`, `select(.c != 0)`, `(.a, .c) as $m`, `.[$i]? as [$x]`, `.c[1:] as [$t]`, `reduce .c[]? as [$x] (0; . + 1) as $r`, `first(.a, .c) as {$b}`, `label $l | .a as [$x]`,
+	}
+	accs := []string{`.a`, `.c[0]`, `.a.b`, `.c[1:]`, `.c[]`, `.a[0]?`, `.c[$i]`}
+	forms := []string{`[path(%)]`, `(%) = 5`, `(%) |= 6`, `del(%)`}
+	c, a, f := ctxs[nondetChoice(len(ctxs))], accs[nondetChoice(len(accs))], forms[nondetChoice(len(forms))]
+	fill := func(tmpl, body string) string {
+		out := ""
+		for i := 0; i < len(tmpl); i++ {
+			if tmpl[i] == '%' {
+				out += body
+			} else {
+				out += string(tmpl[i])
+			}
+		}
+		return out
+	}
+	with, without := fill(f, c+` | `+a), fill(f, a)
+	vlabel("prog", with)
+	var av any
+	switch nondetChoice(4) {
+	case 0:
+		av = map[string]any{"b": hSmallInt()}
+	case 1:
+		av = []any{hSmallInt(), 2}
+	case 2:
+		av = nil
+	default:
+		av = hSmallInt()
+	}
+	input := map[string]any{"a": av, "c": []any{hSmallInt(), []any{3}}}
+	x := hSmallInt()
+	// the context on its own: must pass its input on exactly once, else outside this harness
+	probe := c02Run(c+` | 1`, hDeepCopy(input), x, 0, 0)
+	if len(probe) != 1 || probe[0] != 1 {
+		vreach("context-fails-or-generates")
+		return
+	}
+	got := c02Run(with, hDeepCopy(input), x, 0, 0)
+	want := c02Run(without, hDeepCopy(input), x, 0, 0)
+	// values and failure positions (the message text of `A = x` with a constant path differs
+	// by the setpath wrapper: C04's recorded finding, not a matter of path semantics)
+	vassert(len(got) == len(want), "a value context inside a path expression: same number of outputs")
+	if len(got) == len(want) {
+		for n := range got {
+			_, e1 := got[n].(error)
+			_, e2 := want[n].(error)
+			vassert(e1 == e2, "a value context inside a path expression: fails exactly when the plain form fails")
+			if !e1 && !e2 {
+				vassert(hIdentical(got[n], want[n]), "a value context inside a path expression: same result as the plain form")
+			}
+		}
+	}
+	vreach("end")
+}
+
+// H_C02_slicefrac: fractional slice bounds mean the same thing when writing as when
+// reading (start rounds down, end rounds up): `.[s:e] |= F`, `.[s:e] = X` and
+// `del(.[s:e])` equal the splice written with the rounded integer bounds.
+func H_C02_slicefrac() {
+	n := nondetChoice(5)
+	arr := make([]any, n)
+	for k := range arr {
+		arr[k] = hSmallInt()
+	}
+	// the bounds are enumerated: int-to-float conversion of a symbolic bound puts every
+	// comparison into the FP theory (measured: unknowns after minutes)
+	i := nondetChoice(n + 1)
+	j := i + nondetChoice(n-i+1)
+	fr := []string{``, ` + 0.2`, ` + 0.5`, ` - 0.5`}
+	fs, fe := fr[nondetChoice(len(fr))], fr[nondetChoice(len(fr))]
+	s, e := `($i`+fs+`)`, `($j`+fe+`)`
+	bounds := `(` + s + ` | floor | if . < 0 then 0 else . end) as $S | (` + e + ` | ceil | if . < $S then $S else . end) as $E | `
+	var with, plain string
+	switch nondetChoice(4) {
+	case 0:
+		with, plain = `.[`+s+`:`+e+`] |= map(. + 1) + [9]`, bounds+`.[:$S] + (.[$S:$E] | map(. + 1) + [9]) + .[$E:]`
+	case 1:
+		with, plain = `.[`+s+`:`+e+`] = ["x"]`, bounds+`.[:$S] + ["x"] + .[$E:]`
+	case 2:
+		with, plain = `del(.[`+s+`:`+e+`])`, bounds+`.[:$S] + .[$E:]`
+	default:
+		with, plain = `.[`+s+`:`+e+`]`, bounds+`.[$S:$E]`
+	}
+	vlabel("prog", with)
+	got := c02Run(with, hDeepCopy(arr), i, j, 0)
+	want := c02Run(plain, hDeepCopy(arr), i, j, 0)
+	vassert(len(got) == 1 && len(want) == 1, "one output")
+	if len(got) == 1 && len(want) == 1 {
+		_, e1 := got[0].(error)
+		_, e2 := want[0].(error)
+		vassert(!e1 && !e2, "slicing an array with numeric bounds does not fail")
+		if !e1 && !e2 {
+			vassert(hEqual(got[0], want[0]), "a fractional slice bound selects the same elements for writing as for reading")
+		}
+	}
+	vreach("end")
+}
